@@ -63,6 +63,9 @@ CHECKS = {
  "C02": dict(engine=E3, technique="exhaustive enumeration of schemas x the complete product of Go output options (64 flag sets x 4 output selections), all languages x formats, and directly constructed IRs; generated trees checked with go build, python compile+import, javac and a placeholder scan",
    text="(A) 47 schemas (thorough: all 357 of grammar G's quick set) x all 256 Go configurations, every unit generated by the real pipeline and compiled with `go build` (byte-identical trees deduplicated); (B) every schema x 3 formats x Go/Python/Java/TypeScript/PHP configurations: Python byte-compiles and imports, Java compiles with javac against Jackson, TypeScript/PHP are scanned for placeholders; (C) grammar-I IRs injected through Pipeline.Transforms.CommonPasses. A run that returns an error passes (sanctioned refusal); a successful run must compile everywhere and contain no placeholder text. Failing configurations are reduced to the minimal flag condition.",
    note="No tsc/php on the image: only the placeholder clause is decided for TypeScript and PHP; composable-slot IRs are excluded (need a variants runtime); panics are recorded as crash kinds (C04).", ref="§6 C02"),
+ "C04": dict(engine=E3, technique="exhaustive enumeration of well-formed special shapes, all truncations and single-token mutations of seed documents, all short symbol strings, all wrong-type substitutions in configuration templates, and small IRs; every case executed in crash- and hang-isolated workers",
+   text="(a) ~1900 hand-rendered special shapes + grammar G in 3 formats x 7 languages x output selections; (b) for 114 seed documents every truncation offset and every token x 14 operators, plus all strings of <=3 (thorough 4) symbols, fed to the JSON Schema / OpenAPI / CUE / YAML entry points, and every IR the mutants still load into is run through the full pipeline; (c) every scalar position of 59 configuration templates replaced by 7 wrong-type values, 140 `if:` expressions, 78 `as:` types x passes and rules, then applied to a small schema; (d) ~2000 (thorough 7500) IRs incl. dangling and cyclic references through every pass, language chain, builder generator and jenny. A case passes if it returns files or an error; a recovered panic, a dead worker (stack overflow) or a hang is a finding identified by its crash site.",
+   note="A hang is a request exceeding 30 s (cases take milliseconds) that reproduces three times in isolation; workers run with a 64 MiB stack limit and an address-space limit; map iteration inside one run is not controlled (one output language per run keeps the crashing language deterministic).", ref="§6 C04"),
 }
 
 NOT_YET = "check not built yet in this session (planned, see DESIGN.md §6); not claimed until it runs clean on the unchanged tree"
